@@ -4,7 +4,7 @@
    reverse order, and an empty collection is Succeed.  That the order of conjuncts does not change
    the answer multiset is C04. *)
 From Coq Require Import List Permutation ZArith Bool Arith.
-From PV Require Import Model.Term Model.Subst Model.Unify Model.FD Model.State Model.Engine Proofs.PermProofs.
+From PV Require Import Model.Term Model.Subst Model.Unify Model.FD Model.State Model.Engine Proofs.PermProofs Proofs.UnifyProofs Proofs.DiseqProofs Proofs.SemProofs Proofs.MonoProofs Proofs.DenProofs.
 Import ListNotations.
 
 Theorem C12_is_conjunction : forall k cs, from_iter k cs = from_array k (rev cs).
@@ -28,7 +28,33 @@ Theorem C12_unfold : forall defs n k rho x e es css st,
    start defs n (from_iter k cs) (set_nextv st nv)).
 Proof. reflexivity. Qed.
 
+(* the conjunction, semantically: every solution of every answer the engine delivers for
+   for x in coll { body } satisfies the logical reading of the body constructed for EVERY element
+   (whatever the order in which the conjuncts are scheduled), and solves the starting state *)
+Theorem C12_every_element : forall defs kk u n k rho x elems css st a rest u' th,
+  next defs kk u (start defs n (CEveryg k rho x elems css) st) = NAnswer a rest u' -> Mst th a ->
+  exists m cs nv,
+    (fix mk (es : list term) (nv : nat) : list cgoal * nat :=
+       match es with
+       | [] => ([], nv)
+       | e :: r =>
+           let '(c, n1) := elab defs efuel k ((x, e) :: rho) (GConj (map GConj css)) nv in
+           let '(cs, n2) := mk r n1 in (c :: cs, n2)
+       end) elems m = (cs, nv) /\
+    length cs = length elems /\ forall c, In c cs -> Den defs th c.
+Proof.
+  intros defs kk u n k rho x elems css st a rest u' th H HM.
+  destruct (delivered_sound _ _ _ _ _ _ _ _ _ th H HM) as [HD _].
+  inversion HD; subst; [|match goal with O : opaque _ |- _ => destruct O end].
+  match goal with E : _ elems ?m = (?c, ?v), D : Den _ _ (from_iter _ ?c) |- _ =>
+    exists m, c, v; split; [exact E|]; split; [|apply (Den_from_iter _ _ _ _ D)]; clear - E; revert m c v E end. induction elems as [|e r IH]; intros m cs9 nv9 E; [inversion E; reflexivity|].
+  destruct (elab defs efuel k ((x, e) :: rho) (GConj (map GConj css)) m) as [c n1].
+  match type of E with (let '(cs0, n2) := ?X in _) = _ => destruct X as [cs8 n8] eqn:E2 end.
+  inversion E; subst. cbn [length]. f_equal. eapply IH. exact E2.
+Qed.
+
 Check C12_is_conjunction : forall k cs, from_iter k cs = from_array k (rev cs).
 Print Assumptions C12_is_conjunction.
 Print Assumptions C12_empty.
 Print Assumptions C12_unfold.
+Print Assumptions C12_every_element.
